@@ -30,6 +30,7 @@ fn classes_of(stats: &CaseStats) -> BTreeMap<String, u64> {
     add("with_sweep_and_survivor", stats.sweeps_with_survivor > 0);
     add("with_rotation", stats.rotations > 0);
     add("with_stall_window", stats.stall_windows > 0);
+    add("with_single_worker_step_inside_window", stats.worker_steps > 0);
     add("with_same_key_burst", stats.same_key_bursts > 0);
     add("with_read_between_delete_and_ack", stats.reads_in_stall_after_delete > 0);
     add("with_reincarnation", stats.reincarnations > 0);
